@@ -149,3 +149,59 @@ func Multi(a int) (int, string) {
 	}
 	return x, s
 }
+
+// go1.22 per-iteration loop variables whose only capture sits in the post statement: the closure sees the
+// copy that the post statement is about to increment, one cell per iteration
+func LoopVarPost(n int) int {
+	var fs []func() int
+	for i := 0; i < n+2; i, fs = i+1, append(fs, func() int { return i }) {
+	}
+	s := 0
+	for _, f := range fs {
+		s = s*10 + f()
+	}
+	return s
+}
+
+// the same with the address taken in the post statement
+func LoopVarPostAddr(n int) int {
+	var ps []*int
+	for i := 0; i < n+2; i, ps = i+1, append(ps, &i) {
+	}
+	s := 0
+	for _, p := range ps {
+		*p += 3
+		s = s*10 + *p
+	}
+	return s
+}
+
+// captured only in the condition
+func LoopVarCond(n int) int {
+	var fs []func() int
+	keep := func(f func() int) bool {
+		fs = append(fs, f)
+		return true
+	}
+	for i := 0; i < n+2 && keep(func() int { i += 5; return i }); i++ {
+		emitI(i)
+	}
+	s := 0
+	for _, f := range fs {
+		s = s*10 + f()%10
+	}
+	return s
+}
+
+// captured in the body and modified in the post statement through the closure of the previous iteration
+func LoopVarBodyPost(n int) int {
+	var last func() int
+	s := 0
+	for i := 0; i < n+3; i++ {
+		if last != nil {
+			s += last()
+		}
+		last = func() int { i++; return i }
+	}
+	return s*100 + last()
+}
